@@ -1119,15 +1119,19 @@ impl<'env> Executor<'env> {
                 "template name was not a string",
             ));
         };
-        if state.loaded_templates.contains(&name) {
-            return Err(Error::new(
-                ErrorKind::InvalidOperation,
-                format!("cycle in template inheritance. {name:?} was referenced more than once"),
-            ));
-        }
         let tmpl = ok!(state.get_template(name));
         let (new_instructions, new_blocks) = ok!(tmpl.instructions_and_blocks());
-        state.loaded_templates.insert(new_instructions.name());
+        // the name as resolved (a path join callback may have rewritten it) is
+        // what identifies the template
+        if !state.loaded_templates.insert(new_instructions.name()) {
+            return Err(Error::new(
+                ErrorKind::InvalidOperation,
+                format!(
+                    "cycle in template inheritance. {:?} was referenced more than once",
+                    new_instructions.name()
+                ),
+            ));
+        }
         for (name, instr) in new_blocks.iter() {
             state
                 .blocks
